@@ -78,6 +78,32 @@ def channel_acceptance(outs, var=None):
         % (missing, acc))
 
 
+def size_cap_refusals(outs):
+    """Explicit refusals of an encode run whose condition measures the
+    encoded output (len of encoder results): a cap on the size of what can
+    be sent.  -> ['<exception> at <site> when <condition>']"""
+    out = []
+    seen = set()
+    for o in outs:
+        if o.kind != 'raise' or o.exc.primitive:
+            continue
+        for a in o.state.kn.atoms:
+            if not isinstance(a, Sym) or a.op in ('isinstance',):
+                continue
+            if a.op not in ('gt', 'ge', 'lt', 'le', 'not'):
+                continue
+            if T.mentions(a, lambda t: t.op == 'len' and
+                          isinstance(t.args[0], Sym) and
+                          t.args[0].op in ('enc', 'concat', 'pack', 'more',
+                                           'join', 'utf8', 'opt')):
+                k = (o.exc.site, a)
+                if k not in seen:
+                    seen.add(k)
+                    out.append('%s at %s when %s' % (
+                        o.exc.type_name, o.exc.site, T.show(a)[:100]))
+    return out
+
+
 def parts_of(term):
     if isinstance(term, Sym) and term.op == 'concat':
         return list(term.args)
